@@ -56,6 +56,13 @@ def ref_eq(a, b):
     if isinstance(a, (tuple, Mapping)) or isinstance(b, (tuple, Mapping)):
         return False
     try:
+        # numpy compares a float64 with a Python int by rounding the int to a double
+        # (np.float64(2.0**53) == 2**53 + 1) although their hashes differ: "pairwise-equal
+        # fields" is read with Python's exact comparison of the numbers the scalars hold
+        if isinstance(a, np.generic) and isinstance(b, int) and not isinstance(b, bool):
+            a = a.item()
+        elif isinstance(b, np.generic) and isinstance(a, int) and not isinstance(a, bool):
+            b = b.item()
         return bool(a == b)
     except Exception:
         return False
